@@ -66,7 +66,7 @@ def is_conc(x):
 
 
 class Sym:
-    __slots__ = ('t', 'k', 'iv', 'ex', 'eps')
+    __slots__ = ('t', 'k', 'iv', 'ex', 'eps', 'ratio')
 
     def __init__(self, t, k, iv=None, ex=None, eps=None):
         self.t = t
@@ -74,6 +74,7 @@ class Sym:
         self.iv = iv        # for k == 'real': z3 Int term when the value is known to be an integer (fp mode)
         self.ex = ex        # fp mode: exact (real-arithmetic) value term; t == ex*(1+delta), |delta| <= eps
         self.eps = eps
+        self.ratio = None   # real mode: (a, b) z3 Int terms when the value is the exact quotient a/b of two integers
 
     # -- construction helpers -------------------------------------------------------
     @staticmethod
@@ -276,9 +277,12 @@ def _to_sympy(t, table):
         return table[nm][0]
     if z3.is_app(t) and z3.is_int(t):
         k = t.decl().kind()
-        ch = [_to_sympy(c, table) for c in t.children()]
-        if any(c is None for c in ch):
-            return None
+        if k in (z3.Z3_OP_ADD, z3.Z3_OP_MUL, z3.Z3_OP_SUB, z3.Z3_OP_UMINUS):
+            ch = [_to_sympy(c, table) for c in t.children()]
+            if any(c is None for c in ch):
+                return None
+        else:
+            ch = []
         if k == z3.Z3_OP_ADD:
             return sum(ch[1:], ch[0])
         if k == z3.Z3_OP_MUL:
@@ -293,6 +297,12 @@ def _to_sympy(t, table):
             return r
         if k == z3.Z3_OP_UMINUS:
             return -ch[0]
+    if z3.is_int(t):
+        # any other Int-valued subterm (if-then-else, floor, div, ...) is an opaque atom of the polynomial
+        nm = 'atom%d' % t.get_id()
+        if nm not in table:
+            table[nm] = (sympy.Symbol('v%d' % len(table)), t)
+        return table[nm][0]
     return None
 
 
@@ -415,7 +425,14 @@ def arith(a, b, op):
         r = ta / tb
         if CTX.fp:
             r = _round_fp(r)
-        return Sym(r, 'real')
+        res = Sym(r, 'real')
+        if not CTX.fp and b.k in ('int', 'bool'):
+            # exact quotient of integers (real mode): remembered so that int()/floor()/ceil() stay in integer arithmetic
+            if a.k in ('int', 'bool'):
+                res.ratio = (a.as_int(), b.as_int())
+            elif a.ratio is not None:
+                res.ratio = (a.ratio[0], a.ratio[1] * b.as_int())
+        return res
     if op in ('//', '%'):
         ta, tb, k = _coerce(a, b)
         if k == 'int':
@@ -487,6 +504,19 @@ def power(a, b):
 
 # -- conversions with Python semantics ------------------------------------------------
 
+def _ratio_floor(x):
+    """floor(a/b) in integer arithmetic when x is the exact quotient a/b with b > 0 on this path (else None)."""
+    if not isinstance(x, Sym) or x.ratio is None or CTX.sign_oracle is None:
+        return None
+    a, b = x.ratio
+    if z3.is_int_value(b):
+        if b.as_long() <= 0:
+            return None
+    elif CTX.sign_oracle(b) != 'pos':
+        return None
+    return _divmod_fresh(a, b)[0] if not z3.is_int_value(b) else a / b
+
+
 def to_int(x):
     """int(x): truncation toward zero."""
     if is_conc(x):
@@ -495,6 +525,9 @@ def to_int(x):
         return Sym(x.as_int(), 'int')
     if x.iv is not None:
         return Sym(x.iv, 'int')
+    fr = _ratio_floor(x)
+    if fr is not None and CTX.sign_oracle is not None and CTX.sign_oracle(x.ratio[0], True) == 'pos':
+        return Sym(fr, 'int')           # non-negative quotient: truncation is the floor
     t = x.t
     return Sym(z3.If(t >= 0, _floor_term(t), -_floor_term(-t)), 'int')
 
@@ -505,6 +538,9 @@ def floor(x):
         return math.floor(_q(x))
     if x.k != 'real':
         return Sym(x.as_int(), 'int')
+    fr = _ratio_floor(x)
+    if fr is not None:
+        return Sym(fr, 'int')
     return Sym(_floor_term(x.t), 'int')
 
 
@@ -514,6 +550,9 @@ def ceil(x):
         return math.ceil(_q(x))
     if x.k != 'real':
         return Sym(x.as_int(), 'int')
+    if _ratio_floor(x) is not None:
+        a, b = x.ratio
+        return Sym(-_divmod_fresh(-a, b)[0], 'int')        # ceil(a/b) = -floor(-a/b), b > 0
     return Sym(-_floor_term(-x.t), 'int')
 
 
